@@ -45,7 +45,7 @@ theorem takeBytes_put (b rest : Bytes) (hb : b.length < 2 ^ 63) :
 
 /-- reference to a child: new format `(version, nonce)` or legacy hash -/
 inductive ChildRef where
-  | new (version : Nat) (nonce : Nat)
+  | new (version : Int) (nonce : Nat)
   | legacy (hash : Bytes)
   deriving DecidableEq, Repr
 
@@ -84,7 +84,7 @@ def takeChild (legacy : Bool) (bz : Bytes) : Option (ChildRef × Bytes) :=
       | none => none
       | some (n, r2) =>
         if n < 0 ∨ n ≥ 2 ^ 32 then none         -- "out of int32 range" check on the nonce
-        else some (.new v.toNat n.toNat, r2)
+        else some (.new v n.toNat, r2)
 
 /-- `MakeNode` (node key handled by the caller); `none` = error -/
 def decNode (bz : Bytes) : Option NodeRec :=
@@ -118,7 +118,7 @@ def decNode (bz : Bytes) : Option NodeRec :=
                 | some (r, _) => some (.inner h sz k hash l r)
 
 def ChildWF : ChildRef → Prop
-  | .new v n => v < 2 ^ 63 ∧ n < 2 ^ 32
+  | .new v n => -(2 ^ 63) ≤ v ∧ v < 2 ^ 63 ∧ n < 2 ^ 32
   | .legacy h => h.length = 32
 
 def NodeWF : NodeRec → Prop
@@ -130,9 +130,9 @@ theorem takeChild_put (c : ChildRef) (hc : ChildWF c) (rest : Bytes) :
     takeChild c.isLegacy (encChild c ++ rest) = some (c, rest) := by
   cases c with
   | new v n =>
-    obtain ⟨hv, hn⟩ := hc
+    obtain ⟨hv0, hv, hn⟩ := hc
     simp only [takeChild, encChild, ChildRef.isLegacy, Bool.false_eq_true, if_false, List.append_assoc]
-    rw [takeVarint_put (v : Int) (by omega) (by omega)]
+    rw [takeVarint_put v hv0 hv]
     simp only
     rw [takeVarint_put (n : Int) (by omega) (by omega)]
     simp only
@@ -189,4 +189,99 @@ theorem decNode_encNode (n : NodeRec) (hwf : NodeWF n) : decNode (encNode n) = s
     have := takeChild_put r hr []
     simp only [List.append_nil] at this
     rw [this]
+
+/-! ### legacy nodes and fast nodes -/
+
+inductive LegacyRec where
+  | leaf (height size version : Int) (key value : Bytes)
+  | inner (height size version : Int) (key left right : Bytes)
+  deriving DecidableEq, Repr
+
+/-- `MakeLegacyNode`; `none` = error -/
+def decLegacyNode (bz : Bytes) : Option LegacyRec :=
+  match takeVarint bz with
+  | none => none
+  | some (h, r1) =>
+    if h < -128 ∨ h > 127 then none else
+    match takeVarint r1 with
+    | none => none
+    | some (sz, r2) =>
+      match takeVarint r2 with
+      | none => none
+      | some (ver, r3) =>
+        match takeBytes r3 with
+        | none => none
+        | some (k, r4) =>
+          if h = 0 then
+            match takeBytes r4 with
+            | none => none
+            | some (v, _) => some (.leaf h sz ver k v)
+          else
+            match takeBytes r4 with
+            | none => none
+            | some (lh, r5) =>
+              match takeBytes r5 with
+              | none => none
+              | some (rh, _) => some (.inner h sz ver k lh rh)
+
+def encLegacyNode : LegacyRec → Bytes
+  | .leaf h sz ver k v => varint h ++ varint sz ++ varint ver ++ encBytes k ++ encBytes v
+  | .inner h sz ver k l r => varint h ++ varint sz ++ varint ver ++ encBytes k ++ encBytes l ++ encBytes r
+
+/-- `fastnode.DeserializeNode` / `WriteBytes` -/
+def decFastNode (bz : Bytes) : Option (Int × Bytes) :=
+  match takeVarint bz with
+  | none => none
+  | some (ver, r) =>
+    match takeBytes r with
+    | none => none
+    | some (v, _) => some (ver, v)
+
+def encFastNode (ver : Int) (v : Bytes) : Bytes := varint ver ++ encBytes v
+
+theorem decFastNode_encFastNode (ver : Int) (v : Bytes) (h1 : -(2 ^ 63) ≤ ver) (h2 : ver < 2 ^ 63)
+    (hv : v.length < 2 ^ 63) : decFastNode (encFastNode ver v) = some (ver, v) := by
+  unfold decFastNode encFastNode
+  rw [takeVarint_put ver h1 h2]
+  simp only
+  have := takeBytes_put v [] hv
+  simp only [List.append_nil] at this
+  rw [this]
+
+theorem decLegacyNode_encLegacyNode_leaf (sz ver : Int) (k v : Bytes)
+    (h1 : -(2 ^ 63) ≤ sz) (h2 : sz < 2 ^ 63) (h3 : -(2 ^ 63) ≤ ver) (h4 : ver < 2 ^ 63)
+    (hk : k.length < 2 ^ 63) (hv : v.length < 2 ^ 63) :
+    decLegacyNode (encLegacyNode (.leaf 0 sz ver k v)) = some (.leaf 0 sz ver k v) := by
+  simp only [decLegacyNode, encLegacyNode, List.append_assoc]
+  rw [takeVarint_put 0 (by decide) (by decide)]
+  simp only [show ¬ ((0 : Int) < -128 ∨ (0 : Int) > 127) by decide, if_false]
+  rw [takeVarint_put sz h1 h2]
+  simp only
+  rw [takeVarint_put ver h3 h4]
+  simp only
+  rw [takeBytes_put k _ hk]
+  simp only [if_true]
+  have := takeBytes_put v [] hv
+  simp only [List.append_nil] at this
+  rw [this]
+
+theorem decLegacyNode_encLegacyNode_inner (h sz ver : Int) (k l r : Bytes) (h0 : h ≠ 0) (hlo : -128 ≤ h) (hhi : h ≤ 127)
+    (h1 : -(2 ^ 63) ≤ sz) (h2 : sz < 2 ^ 63) (h3 : -(2 ^ 63) ≤ ver) (h4 : ver < 2 ^ 63)
+    (hk : k.length < 2 ^ 63) (hl : l.length < 2 ^ 63) (hr : r.length < 2 ^ 63) :
+    decLegacyNode (encLegacyNode (.inner h sz ver k l r)) = some (.inner h sz ver k l r) := by
+  simp only [decLegacyNode, encLegacyNode, List.append_assoc]
+  rw [takeVarint_put h (by omega) (by omega)]
+  have hh : ¬ (h < -128 ∨ h > 127) := by omega
+  simp only [hh, if_false]
+  rw [takeVarint_put sz h1 h2]
+  simp only
+  rw [takeVarint_put ver h3 h4]
+  simp only
+  rw [takeBytes_put k _ hk]
+  simp only [h0, if_false]
+  rw [takeBytes_put l _ hl]
+  simp only
+  have := takeBytes_put r [] hr
+  simp only [List.append_nil] at this
+  rw [this]
 end Iavl
